@@ -190,6 +190,9 @@ def extrap_stage(rep, tier, fb):
     return res, n, worst
 
 
+KNOWN_ERR = {f['key']: f.get('recorded_relative_error') for f in vlib.load_findings() if f.get('property') == 'C17' and f.get('status') == 'known'}
+
+
 def run(tier, rep):
     seed = 20261003        # fixed (VERIF_SEED is ignored here): the known findings of this property are listed per failing input of this case set
     ctl_cfg = "CONSTANTS\n  MaxIters = {3, 4, 5, 8, 30}\n  NumExtraps = {0, 1, 2, 3, 5}\nSPECIFICATION Spec\nCHECK_DEADLOCK FALSE\nINVARIANT FailedIffCap\nINVARIANT ConvergedMeans\nINVARIANT EnoughCircles\nINVARIANT CirclesAfterRange\nINVARIANT DegenerateOnlyLate\nINVARIANT TypeOK\n"
@@ -253,6 +256,12 @@ def run(tier, rep):
             ratio = (o['err'][k] - floor) / max(o['est'][k], 1e-300)
             if o['err'][k] > 100 * o['est'][k]:
                 surv.append((o['err'][k] / floor, o['err'][k], o['est'][k], floor, k, name))
+            if default and n <= 20 and not o['est'][k] <= ENV['taylor']['est_ceiling'] * (o['exact'][k] + floor):
+                # an estimate may be pessimistic, not arbitrary: with the default configuration it stays within a fixed multiple of
+                # the coefficient's own size plus the FFT floor (worst observed 0.11)
+                rep.violation('estimate-inflated', dict(case=name, k=k, error_estimate=o['est'][k], exact_abs=o['exact'][k], floor=floor),
+                              '%s: error_estimate of coefficient %d is %.3g although |coefficient| = %.3g and the FFT floor is %.3g' % (name, k, o['est'][k], o['exact'][k], floor))
+                break
             if not o['err'][k] <= K * o['est'][k] + floor:
                 key = 'coefficient:%s' % F[fi][0]
                 if n > 25:
@@ -263,6 +272,9 @@ def run(tier, rep):
                     key = 'coefficient-nyquist'
                 if key.startswith('coefficient-'):
                     key = key + ':' + name         # known findings are listed per failing input (tools/gen_known_c17.py), not per region
+                    rec_ = KNOWN_ERR.get(key)
+                    if rec_ is not None and o['err'][k] / max(o['exact'][k], floor) > 10 * rec_:
+                        key = key + ':worse'       # the listed input fails by more than ten times its recorded relative error: reported
                 rep.violation(key, dict(case=name, k=k, error=o['err'][k], error_estimate=o['est'][k], floor=floor, exact_abs=o['exact'][k], R=o['R']),
                               '%s: coefficient %d is off by %.3g, error_estimate %.3g, FFT floor %.3g (|exact| = %.3g)' % (name, k, o['err'][k], o['est'][k], floor, o['exact'][k]))
                 break
